@@ -615,3 +615,170 @@ def discover(case):
             return {'kind': 'error', 'ty': type(e).__name__, 'msg': str(e).replace(d, '@TMP@')}
     finally:
         shutil.rmtree(d, ignore_errors=True)
+
+
+# --------------------------------------------------------------------------
+# sequences in ONE process: parser calls with in-place mutation of earlier results; API runs
+# --------------------------------------------------------------------------
+
+def _obs_of_result(r):
+    from collections.abc import Mapping
+    if r is None:
+        return {'ok': None}
+    if isinstance(r, Mapping):
+        return {'ok': common.enc(dict(r))}
+    try:
+        return {'ok': {'not-a-mapping': common.enc(r)}}
+    except Exception:
+        return {'ok': {'not-a-mapping': repr(r)[:200]}}
+
+
+def mutate_in_place(obj, how):
+    """What steps do to the containers a parser handed out (through the context): fill / empty the nested
+    containers in place (`pypyr.steps.default`, `contextmerge`, a py step), write to the mapping itself."""
+    from collections.abc import MutableMapping
+    if not isinstance(obj, MutableMapping):
+        return
+    try:
+        if how in ('nested-fill', 'all'):
+            for v in list(obj.values()):
+                if isinstance(v, MutableMapping):
+                    v['polluted'] = 'by an earlier run'
+                    v['a'] = 'overwritten'
+                elif isinstance(v, list):
+                    v.append('polluted')
+        if how == 'nested-clear':
+            for v in list(obj.values()):
+                if isinstance(v, (MutableMapping, list)):
+                    v.clear()
+        if how in ('top-add', 'all'):
+            obj['polluted'] = 1
+            obj['argDict' if 'argDict' not in obj else 'argList'] = {'planted': True}
+        if how == 'top-clear':
+            obj.clear()
+        if how == 'top-replace-values':
+            for k in list(obj):
+                obj[k] = 'replaced'
+    except Exception:  # noqa - an immutable result cannot be polluted
+        pass
+
+
+def parser_seq_obs(ops):
+    """ops: ['call', parser, args|None] | ['mutate', i, how] played in THIS process, in order.
+    -> the observation of every call (as parser_obs). `mutate i` rewrites the object the i-th call returned."""
+    import importlib
+    results, out = [], []
+    for op in ops:
+        if op[0] == 'call':
+            mod = importlib.import_module(op[1])
+            try:
+                r = mod.get_parsed_context(None if op[2] is None else list(op[2]))
+            except Exception as e:
+                results.append(None)
+                out.append({'err': {'name': common.exc_name(e)}})
+                continue
+            results.append(r)
+            out.append(_obs_of_result(r))       # encoded NOW: later mutations do not show in the record
+        else:
+            if op[1] < len(results):
+                mutate_in_place(results[op[1]], op[2])
+    return out
+
+
+SNAP_STEP = """import copy
+SNAPS = []
+HOW = {how!r}
+
+def run_step(context):
+    from collections.abc import MutableMapping
+    SNAPS.append(copy.deepcopy({{k: v for k, v in context.items()}}))
+    if HOW is None:
+        return
+    for v in list(context.values()):
+        if isinstance(v, MutableMapping):
+            if HOW == 'clear':
+                v.clear()
+            else:
+                v['polluted'] = 'by an earlier run'
+                v['a'] = 'overwritten'
+        elif isinstance(v, list):
+            if HOW == 'clear':
+                v.clear()
+            else:
+                v.append('polluted')
+"""
+_snap_counter = [0]
+
+
+def api_two_runs_obs(parser, runs, how):
+    """Several `pypyr.pipelinerunner.run()` calls in THIS process on pipelines using the same context parser.
+    The first step of each pipeline records the context it sees (deep copy) and then fills / empties the
+    containers in it in place. runs: [{'args_in', 'dict_in', 'parse_args'}]. -> [{'ok': ctx seen} | {'err'}]"""
+    import copy
+    import importlib
+    import pypyr.pipelinerunner
+    _snap_counter[0] += 1
+    d = tempfile.mkdtemp(prefix='c18two_')
+    modname = f'c18snap_{os.getpid()}_{_snap_counter[0]}'
+    out = []
+    try:
+        with open(os.path.join(d, modname + '.py'), 'w') as f:
+            f.write(SNAP_STEP.format(how=how))
+        body = {'steps': [modname]}
+        if parser:
+            body['context_parser'] = parser
+        with open(os.path.join(d, 'p.yaml'), 'w') as f:
+            f.write(json.dumps(body, indent=1))
+        for r in runs:
+            try:
+                pypyr.pipelinerunner.run(os.path.join(d, 'p'), args_in=None if r['args_in'] is None else list(r['args_in']),
+                                         parse_args=r.get('parse_args'),
+                                         dict_in=None if r.get('dict_in') is None else copy.deepcopy(r['dict_in']))
+            except Exception as e:
+                out.append({'err': {'name': common.exc_name(e)}})
+                continue
+            snaps = importlib.import_module(modname).SNAPS
+            out.append({'ok': common.enc(snaps[-1])} if snaps else {'err': {'name': 'step-did-not-run'}})
+        return out
+    finally:
+        sys.modules.pop(modname, None)
+        if d in sys.path:
+            sys.path.remove(d)
+        shutil.rmtree(d, ignore_errors=True)
+
+
+def api_run_obs(case):
+    """The pipeline of a proc case through `pypyr.pipelinerunner.run` in THIS process, with the groups / success /
+    failure the case names (`api`: {'args_in', 'groups', 'success_group', 'failure_group'}).
+    -> {'raised': None | {'ty', 'msg'}, 'probe': [...]}"""
+    import pypyr.pipelinerunner
+    d = tempfile.mkdtemp(prefix='c18a_')
+    buf = io.StringIO()
+    try:
+        for rel, txt in case['files'].items():
+            path = os.path.join(d, rel)
+            os.makedirs(os.path.dirname(path), exist_ok=True)
+            with open(path, 'w', encoding='utf-8') as f:
+                f.write(txt.replace('@TMP@', d).replace('@PY@', PY))
+        a = case['api']
+        raised = None
+        try:
+            with contextlib.redirect_stderr(buf), contextlib.redirect_stdout(buf):
+                pypyr.pipelinerunner.run(pipeline_name=os.path.join(d, 'work', a.get('name', 'pipe')), args_in=a.get('args_in'),
+                                         parse_args=True, groups=a.get('groups'), success_group=a.get('success_group'),
+                                         failure_group=a.get('failure_group'), py_dir=os.path.join(d, 'work'))
+        except Exception as e:
+            raised = {'ty': type(e).__name__, 'msg': str(e).replace(d, '@TMP@')}
+        probe = []
+        pf = os.path.join(d, 'probe.jsonl')
+        if os.path.exists(pf):
+            with open(pf, encoding='utf-8') as f:
+                probe = [json.loads(line) for line in f if line.strip()]
+        return {'raised': raised, 'probe': json.loads(json.dumps(probe).replace(d, '@TMP@'))}
+    finally:
+        wd = os.path.join(d, 'work')
+        if wd in sys.path:
+            sys.path.remove(wd)
+        for m in ('failparser',):
+            sys.modules.pop(m, None)
+        shutil.rmtree(d, ignore_errors=True)
